@@ -2015,13 +2015,16 @@ fn cfg_strategy(profile: Profile, mon: Monitor) -> BoxedStrategy<SimCfg> {
         Just("c\n".to_string()),
         Just("cluster-with-a-rather-long-identifier-0123456789".to_string()),
         Just("ç".to_string()),
+        // paired below with a different id that has the same std `DefaultHasher` value (a pair
+        // found by a birthday search; dictionary entry from seeded change C16-R3A)
+        Just("cluster-3b0e18ecb093926e".to_string()),
         (1usize..400, any::<u16>()).prop_map(|(len, seed)| expand_value(4, len, seed as u64)),
         (100usize..300).prop_map(|n| format!("{}é-cluster", "a".repeat(n))),
     ];
     (2u8..=5, 1u8..=5, kv_grace, fd_strategy(profile), predicate, any::<u64>(), proptest::array::uniform5(0u8..2), ids.clone(), ids)
         .prop_map(move |(slots, initial, kv_grace_ms, fd, predicate, shuffle_seed, clusters, id0, id1)| {
             let cluster_of = if two { clusters } else { [0; 5] };
-            let id1 = if id1 == id0 { format!("{id0}x") } else { id1 };
+            let id1 = if id0 == "cluster-3b0e18ecb093926e" { "cluster-70096deb9b6ee28d".to_string() } else if id1 == id0 { format!("{id0}x") } else { id1 };
             let (slots, initial) = if profile == Profile::MemberPhased { (4, 3.max(initial.min(4))) } else if matches!(profile, Profile::Deep | Profile::Phased) { (4, if profile == Profile::Phased { 4 } else { 3.max(initial.min(4)) }) } else { (slots, initial) };
             SimCfg {
                 slots,
